@@ -155,25 +155,30 @@ def run(ck):
         gens = []
         for pos in range(rng.choice([1, 1, 2, 3])):
             how = rng.choice(["exit1", "exit1", "missing", "sigkill", "reply"])
-            sp = rng.choice(["abs", "rel", "rel", "dot", "dslash", "updown"])
+            sp = rng.choice(["abs", "rel", "rel", "dot", "dslash", "updown", "bslash", "bslash"])
             gens.append(("gen-%s-%d" % (how, pos), rng.choice([None, "k=v"]), dc.enc_reply([]) if how == "reply" else None, sp))
+        if rng.random() < 0.4:
+            # the same generator named twice (other arguments): two generators, two reports if it fails
+            g0 = rng.choice(gens)
+            gens.insert(rng.randrange(len(gens) + 1), (g0[0], rng.choice([None, "language=b,verbose", "k=v"]), g0[2], g0[3]))
         flines.append(dc.run_line(False, extra, gens, src))
         fmeta.append(gens)
     of = [dc.parse_run(x) for x in dc.run_all(flines)]
-    ck.stream("failing-generator-path", description="1..3 generators that fail (exit status, missing executable, killed) or work, their paths written absolutely, relative to the working directory, with a '.' or '..' component "
-              "or a doubled slash: every failing generator is reported once, by the path as written")
+    ck.stream("failing-generator-path", description="1..3 generators that fail (exit status, missing executable, killed) or work, their paths written absolutely, relative to the working directory, with a '.' or '..' component, "
+              "a doubled slash or through a directory with backslashes in its name, some named twice: every failing generator is reported once, by the path as written")
     for gens, x, line in zip(fmeta, of, flines):
         ck.count("failing-generator-path", line, kind="+".join(sorted({g[3] for g in gens})))
         if x is None:
             ck.violation("failing-generator-path", "crash", line[:200], "a run", "no result")
             continue
         msgs = [d.get("message", "") for d in dc.json_diags(x["stderr"]) if d.get("severity") == "error"]
-        for nm, _, reply, sp in gens:
-            tail = {"abs": "/gens/%s'" % nm, "rel": "'../gens/%s'" % nm, "dot": "/gens/./%s'" % nm, "dslash": "/gens//%s'" % nm, "updown": "/gens/../gens/%s'" % nm}[sp]
-            hits = [m_ for m_ in msgs if "run code-generator" in m_ and tail in m_ and (sp != "abs" or not any(t in m_ for t in ("/./", "//", "/../")))]
-            if (reply is None) != (len(hits) == 1):
+        for nm, _, reply, sp in sorted(set((g[0], None, g[2], g[3]) for g in gens), key=lambda g: g[0]):
+            times = sum(1 for g in gens if g[0] == nm)
+            tail = {"abs": "/gens/%s'" % nm, "rel": "'../gens/%s'" % nm, "dot": "/gens/./%s'" % nm, "dslash": "/gens//%s'" % nm, "updown": "/gens/../gens/%s'" % nm, "bslash": "/gens/odd\\dir \\x/%s'" % nm}[sp]
+            hits = [m_ for m_ in msgs if "run code-generator" in m_ and tail in m_ and (sp != "abs" or not any(t in m_ for t in ("/./", "//", "/../", "\\")))]
+            if len(hits) != (times if reply is None else 0):
                 ck.violation("failing-generator-path", "failing-generator-not-named-as-written", " ".join("%s (%s)" % (g[0], g[3]) for g in gens),
-                             ("one error naming %s as written (%s)" % (nm, tail)) if reply is None else "no error about %s" % nm, str(msgs)[:400], signature={"spelling": sp})
+                             ("%d error(s) naming %s as written (%s)" % (times, nm, tail)) if reply is None else "no error about %s" % nm, str(msgs)[:400], signature={"spelling": sp})
     ck.extra["exhaustive"] = True
     ck.extra["rule"] = "exhaustive: all 3906 strings of length <= 5 over 5 characters; %d random written specifications over the whole Unicode range; 300 repeated -G command lines. Distinct by case text; all non-trivial." % n
     ck.partial.append("clap's own option parsing is exercised, not modelled; the encoding of the argument dictionary is the codec's (C10)")
